@@ -12,7 +12,7 @@ from concurrent.futures import ThreadPoolExecutor
 from .. import build, common, progs
 
 MODULE = "NanoVerif.Props.C16"
-LENS = [1, 2, 3]
+LENS = [1, 10000, 3]      # the second call's argument does not fit the client's 8 KiB request buffer (heap-allocated request)
 PROG = ("extern fn strlen(s: string) -> int\nfn main() -> int {\n    let mut a: int = 0\n    unsafe {\n"
         + "".join('        (println "call%d")\n        set a (strlen "%s")\n        (println a)\n' % (i, "x" * n) for i, n in enumerate(LENS))
         + "    }\n    (println \"end\")\n    return 0\n}\nshadow main { assert (== 1 1) }\n")
@@ -198,7 +198,8 @@ def run(ctx):
             keepB = [jb for jb in jobs if meta[jb[4]][0] == "B"]
             rng.shuffle(keepB)
             must = [jb for jb in keepB if "handshake" in jb[4] or jb[4] == "honest" or
-                    ("wedged" in jb[4] and jb[4].split("@")[1] in ("after-ready", "before-reply-1", "after-reply-0", "on-request-2-read"))]
+                    ("wedged" in jb[4] and jb[4].split("@")[1] in ("after-ready", "before-reply-1", "after-reply-0", "on-request-2-read")) or
+                    (jb[4].split("@")[-1] in ("mid-reply-1", "before-reply-1", "mid-reply-0") and jb[4].split("@")[0] in ("exit0", "sigkill", "close-stdout"))]
             jobs = keepA + must + [jb for jb in keepB if jb not in must][:70]
         with ThreadPoolExecutor(12) as ex:
             results = list(ex.map(run_script, jobs))
